@@ -189,7 +189,7 @@ static void run_case(long idx,int req,int plain,long rate,int ch,long tmplk,long
   }
   if(!viol){
     /* granule model: g_k = sum_{t=1..k}(bs[W_{t-1}]+bs[W_t])/4 for every non-final packet */
-    long G=0; long long qmax,qmin,tr_max,tr_min,base; double worstp=-1e18,worstm=-1e18; int wi=0,wj=0,wmi=0,wmj=0;
+    long G=0; long long qmax,qmin,tr_max,tr_min; __int128 base; double worstp=-1e18,worstm=-1e18; int wi=0,wj=0,wmi=0,wmj=0;
     long Mq=(long)rint(1.*maxr*hs/rate),mq=(long)rint(1.*minr*hs/rate);
     if(!notinst&&Mq!=(bm->max_bitsper>0?bm->max_bitsper:0)&&maxr>0){ printf("%ld cfgerr Mq=%ld bm=%ld\n",idx,Mq,bm->max_bitsper); goto done; }
     if(!notinst&&mq!=(bm->min_bitsper>0?bm->min_bitsper:0)&&minr>0){ printf("%ld cfgerr mq=%ld bm=%ld\n",idx,mq,bm->min_bitsper); goto done; }
@@ -202,7 +202,7 @@ static void run_case(long idx,int req,int plain,long rate,int ch,long tmplk,long
     qmax=(long long)Mq*rate-(long long)maxr*hs; if(qmax<0)qmax=0;       /* per unit, scaled by rate */
     qmin=(long long)minr*hs-(long long)mq*rate; if(qmin<0)qmin=0;
     tr_max=(long long)maxr*(bs[1]-bs[0])/4; tr_min=(long long)minr*(bs[1]-bs[0])/4;
-    base=(long long)rate*(R+SLACK);
+    base=(__int128)rate*((__int128)R+SLACK);      /* 128 bit: rate*R exceeds 64 bits for the huge reservoirs of the request cases */
     for(i=0;i<n&&!viol;i++){
       long long bits=0,units=0; long gprev=(i?P[i-1].g:-(bs[P[0].W]/2));
       for(j=i;j<n;j++){
@@ -211,7 +211,7 @@ static void run_case(long idx,int req,int plain,long rate,int ch,long tmplk,long
         if(maxr>0){
           ex=bits*rate-(long long)maxr*dur;
           if((double)ex/rate-R>worstp){ worstp=(double)ex/rate-R; wi=i; wj=j; }
-          if(ex>base+tr_max+units*qmax){
+          if((__int128)ex>base+tr_max+(__int128)units*qmax){
             viol="excess_over_max_exceeds_reservoir";
             sprintf(det,"packets %d..%d: %lld bits in %lld samples, excess %.1f bits > R=%ld + %.1f",i,j,bits,dur,(double)ex/rate,R,(double)(base+tr_max+units*qmax)/rate-R);
             break;
@@ -220,7 +220,7 @@ static void run_case(long idx,int req,int plain,long rate,int ch,long tmplk,long
         if(minr>0){
           ex=(long long)minr*dur-bits*rate;
           if((double)ex/rate-R>worstm){ worstm=(double)ex/rate-R; wmi=i; wmj=j; }
-          if(ex>base+tr_min+units*qmin){
+          if((__int128)ex>base+tr_min+(__int128)units*qmin){
             viol="deficit_below_min_exceeds_reservoir";
             sprintf(det,"packets %d..%d: %lld bits in %lld samples, deficit %.1f bits > R=%ld + %.1f",i,j,bits,dur,(double)ex/rate,R,(double)(base+tr_min+units*qmin)/rate-R);
             break;
